@@ -39,7 +39,11 @@ for name in sorted(os.listdir(os.path.join(HERE, 'seeded'))):
         continue
     d = os.path.join(HERE, 'seeded', name)
     meta = json.load(open(os.path.join(d, 'meta.json')))
-    run('seeded', name, os.path.join(d, 'patch.diff'), meta.get('caught_by') or [meta['property']], 1)
+    # a planted change whose mechanism a later repair of /repo removed no
+    # longer breaks the property (its own demonstration passes): the checks
+    # must then be quiet on it
+    expect = 0 if meta.get('neutralised_by') else 1
+    run('seeded', name, os.path.join(d, 'patch.diff'), meta.get('caught_by') or [meta['property']], expect)
 for name in sorted(os.listdir(os.path.join(HERE, 'benign'))):
     d = os.path.join(HERE, 'benign', name)
     if not os.path.isdir(d) or (args and not any(a in name for a in args)):
